@@ -622,6 +622,9 @@ func run(c *hx.Ctx) {
 		res.WriteCases("Run.Run_C14", cases)
 		return
 	}
+	for _, cs := range poolsim.Corpus("C14") {
+		doCase(cs)
+	}
 	n := c.Scale(200, 3000)
 	for i := 0; i < n; i++ {
 		g := c.R.Fork()
